@@ -1,3 +1,159 @@
 import Holpy.C16.Model
+import Mathlib.Tactic.Ring
+import Mathlib.Tactic.Linarith
+import Mathlib.Tactic.Push
+import Mathlib.Tactic.FieldSimp
+import Mathlib.Tactic.Positivity
+import Mathlib.Algebra.Order.Field.Rat
+/-
+C16 — helper lemmas for the certificate checkers (linear evaluation over any commutative ring,
+gcd division) .  The property theorems themselves are in Props.lean.
+-/
 namespace Holpy.C16
+
+/-! ### evaluation over a commutative ring -/
+
+section Generic
+variable {R : Type} [CommRing R]
+
+/-- `evalAt` with the coefficients cast into `R` (used with `R = ℚ`, and `R = ℤ` where it is `evalAt`). -/
+def evalG : Row → Nat → (Nat → R) → R
+  | [], _, _ => 0
+  | [c], _, _ => (c : R)
+  | a :: b :: rest, i, v => (a : R) * v i + evalG (b :: rest) (i + 1) v
+
+theorem evalG_lin (c d : Int) : ∀ (f1 f2 : Row) (i : Nat) (v : Nat → R), f1.length = f2.length →
+    evalG (List.zipWith (fun m n => c * n + d * m) f1 f2) i v = (c : R) * evalG f2 i v + (d : R) * evalG f1 i v
+  | [], [], i, v, _ => by simp [evalG]
+  | [a], [b], i, v, _ => by simp [evalG]
+  | a :: a' :: r1, b :: b' :: r2, i, v, h => by
+    have ih := evalG_lin c d (a' :: r1) (b' :: r2) (i + 1) v (by simpa using h)
+    simp only [List.zipWith_cons_cons, evalG] at ih ⊢
+    rw [ih]; push_cast; ring
+  | [], _ :: _, _, _, h => by simp at h
+  | _ :: _, [], _, _, h => by simp at h
+  | [_], _ :: _ :: _, _, _, h => by simp at h
+  | _ :: _ :: _, [_], _, _, h => by simp at h
+
+theorem evalG_add : ∀ (f1 f2 : Row) (i : Nat) (v : Nat → R), f1.length = f2.length →
+    evalG (addRow f1 f2) i v = evalG f1 i v + evalG f2 i v
+  | [], [], i, v, _ => by simp [evalG, addRow]
+  | [a], [b], i, v, _ => by simp [evalG, addRow]
+  | a :: a' :: r1, b :: b' :: r2, i, v, h => by
+    have ih := evalG_add (a' :: r1) (b' :: r2) (i + 1) v (by simpa using h)
+    simp only [addRow, List.zipWith_cons_cons, evalG] at ih ⊢
+    rw [ih]; push_cast; ring
+  | [], _ :: _, _, _, h => by simp at h
+  | _ :: _, [], _, _, h => by simp at h
+  | [_], _ :: _ :: _, _, _, h => by simp at h
+  | _ :: _ :: _, [_], _, _, h => by simp at h
+
+theorem evalG_scale (k : Int) : ∀ (f : Row) (i : Nat) (v : Nat → R),
+    evalG (scaleRow k f) i v = (k : R) * evalG f i v
+  | [], i, v => by simp [evalG, scaleRow]
+  | [a], i, v => by simp [evalG, scaleRow]
+  | a :: a' :: r, i, v => by
+    have ih := evalG_scale k (a' :: r) (i + 1) v
+    simp only [scaleRow, List.map_cons, evalG] at ih ⊢
+    rw [ih]; push_cast; ring
+
+theorem evalG_replicate_zero : ∀ (w i : Nat) (v : Nat → R), evalG (List.replicate w 0) i v = 0
+  | 0, i, v => by simp [evalG]
+  | 1, i, v => by simp [evalG]
+  | w + 2, i, v => by
+    have ih := evalG_replicate_zero (w + 1) (i + 1) v
+    simp only [List.replicate_succ, evalG] at ih ⊢
+    rw [ih]; simp
+
+/-- A row whose variable coefficients are all 0 evaluates to its constant. -/
+theorem evalG_zeroVar : ∀ (f : Row) (i : Nat) (v : Nat → R), isZeroVar f = true → evalG f i v = (rowConst f : R)
+  | [], i, v, _ => by simp [evalG, rowConst]
+  | [a], i, v, _ => by simp [evalG, rowConst]
+  | a :: a' :: r, i, v, h => by
+    have h' : a = 0 ∧ isZeroVar (a' :: r) = true := by
+      simpa [isZeroVar, rowKey, List.dropLast] using h
+    have ih := evalG_zeroVar (a' :: r) (i + 1) v h'.2
+    simp only [evalG]
+    rw [ih, h'.1]; simp [rowConst]
+
+end Generic
+
+theorem evalAt_eq_evalG : ∀ (r : Row) (i : Nat) (v : Nat → Int), evalAt r i v = evalG r i v
+  | [], i, v => by simp [evalAt, evalG]
+  | [a], i, v => by simp [evalAt, evalG]
+  | a :: a' :: r, i, v => by
+    have ih := evalAt_eq_evalG (a' :: r) (i + 1) v
+    simp only [evalAt, evalG]; rw [ih]; simp
+
+/-- value of a row under a rational assignment -/
+def evalRowQ (r : Row) (v : Nat → ℚ) : ℚ := evalG r 0 v
+
+/-! ### the run-time witness checkers compute `evalAt` / `evalG` -/
+
+theorem dotFrom_spec : ∀ (r : Row) (xs : List Int) (acc : Int) (i : Nat) (w : Nat → Int),
+    (∀ k, w (i + k) = xs.getD k 0) → dotFrom r xs acc = acc + evalAt r i w
+  | [], xs, acc, i, w, _ => by simp [dotFrom, evalAt]
+  | [c], xs, acc, i, w, _ => by simp [dotFrom, evalAt]
+  | a :: b :: rest, [], acc, i, w, h => by
+    have h0 : w i = 0 := by simpa using h 0
+    have ih := dotFrom_spec (b :: rest) [] acc (i + 1) w (fun k => by
+      have := h (k + 1); simp at this ⊢; rw [← this]; congr 1; omega)
+    simp only [dotFrom, evalAt]; rw [ih, h0]; ring
+  | a :: b :: rest, x :: xs, acc, i, w, h => by
+    have h0 : w i = x := by simpa using h 0
+    have ih := dotFrom_spec (b :: rest) xs (acc + a * x) (i + 1) w (fun k => by
+      have := h (k + 1); simp at this ⊢; rw [← this]; congr 1; omega)
+    simp only [dotFrom, evalAt]; rw [ih, h0]; ring
+
+theorem dotFrom_eq (r : Row) (v : List Int) : dotFrom r v 0 = evalRow r (assignOf v) := by
+  have := dotFrom_spec r v 0 0 (assignOf v) (fun k => by simp [assignOf])
+  simpa [evalRow] using this
+
+theorem dotFromQ_spec : ∀ (r : Row) (xs : List Int) (q acc : Int) (i : Nat) (w : Nat → ℚ), (q : ℚ) ≠ 0 →
+    (∀ k, w (i + k) = (xs.getD k 0 : ℚ) / q) → (dotFromQ r xs q acc : ℚ) = acc + q * evalG r i w
+  | [], xs, q, acc, i, w, _, _ => by simp [dotFromQ, evalG]
+  | [c], xs, q, acc, i, w, _, _ => by simp [dotFromQ, evalG]; ring
+  | a :: b :: rest, [], q, acc, i, w, hq, h => by
+    have h0 : w i = 0 := by simpa using h 0
+    have ih := dotFromQ_spec (b :: rest) [] q acc (i + 1) w hq (fun k => by
+      have := h (k + 1); simp at this ⊢; rw [← this]; congr 1; omega)
+    simp only [dotFromQ, evalG]; rw [ih, h0]; ring
+  | a :: b :: rest, x :: xs, q, acc, i, w, hq, h => by
+    have h0 : w i = (x : ℚ) / q := by simpa using h 0
+    have ih := dotFromQ_spec (b :: rest) xs q (acc + a * x) (i + 1) w hq (fun k => by
+      have := h (k + 1); simp at this ⊢; rw [← this]; congr 1; omega)
+    simp only [dotFromQ, evalG]; rw [ih, h0]; push_cast; field_simp; ring
+
+/-! ### Farkas combinations -/
+
+theorem combRows_length : ∀ (ks : List Int) (rs : List Row) (w : Nat), (∀ r ∈ rs, r.length = w) →
+    (combRows ks rs w).length = w
+  | [], _, w, _ => by simp [combRows]
+  | _ :: _, [], w, _ => by simp [combRows]
+  | k :: ks, r :: rs, w, h => by
+    have ih := combRows_length ks rs w (fun r' hr' => h r' (List.mem_cons_of_mem _ hr'))
+    simp [combRows, addRow, scaleRow, ih, h r (List.mem_cons_self ..)]
+
+theorem combRows_nonneg (v : Nat → ℚ) : ∀ (ks : List Int) (rs : List Row) (w : Nat), (∀ r ∈ rs, r.length = w) →
+    (∀ k ∈ ks, 0 ≤ k) → (∀ r ∈ rs, 0 ≤ evalG r 0 v) → 0 ≤ evalG (combRows ks rs w) 0 v
+  | [], _, w, _, _, _ => by simp [combRows, evalG_replicate_zero]
+  | _ :: _, [], w, _, _, _ => by simp [combRows, evalG_replicate_zero]
+  | k :: ks, r :: rs, w, hl, hk, hr => by
+    have ih := combRows_nonneg v ks rs w (fun r' hr' => hl r' (List.mem_cons_of_mem _ hr'))
+      (fun k' hk' => hk k' (List.mem_cons_of_mem _ hk')) (fun r' hr' => hr r' (List.mem_cons_of_mem _ hr'))
+    have hlen : (scaleRow k r).length = (combRows ks rs w).length := by
+      rw [combRows_length ks rs w (fun r' hr' => hl r' (List.mem_cons_of_mem _ hr'))]
+      simp [scaleRow, hl r (List.mem_cons_self ..)]
+    simp only [combRows]
+    rw [evalG_add _ _ _ _ hlen, evalG_scale]
+    have h1 : (0 : ℚ) ≤ (k : ℚ) := by exact_mod_cast hk k (List.mem_cons_self ..)
+    have h2 := hr r (List.mem_cons_self ..)
+    positivity
+
+theorem isFalseRow_evalG_neg {R : Type} [CommRing R] [LinearOrder R] [IsStrictOrderedRing R]
+    (f : Row) (i : Nat) (v : Nat → R) (h : isFalseRow f = true) : evalG f i v < 0 := by
+  simp only [isFalseRow, Bool.and_eq_true, decide_eq_true_eq] at h
+  rw [evalG_zeroVar f i v h.1]
+  exact_mod_cast h.2
+
 end Holpy.C16
